@@ -486,6 +486,10 @@ def unwrap_conv(d):
     while isinstance(d, dict) and d.get('k') == 'ctor' and len(d.get('args') or []) == 1 and \
             any(t in (d.get('ty') or '') for t in ('iterator', 'StringPiece', 'basic_string', 'string')):
         d = strip(d['args'][0])
+    # the same conversion written as a conversion operator of the iterator class (`operator const_iterator()`)
+    while isinstance(d, dict) and d.get('k') == 'call' and not d.get('args') and isinstance(d.get('recv'), dict) and \
+            '::operator ' in (d.get('name') or '') and 'iterator' in (d.get('name') or '').rsplit('::operator ', 1)[1]:
+        d = strip(d['recv'])
     return d
 
 
